@@ -21,6 +21,13 @@ Per spec (every oracle is evaluated on every member of the lattice, leaves inclu
               the property text does not speak about it)
 A failing round trip is attributed to the deepest sub-expression that fails on its own (signature = oracle +
 skeleton of that node), so one root cause gives one signature whatever the enclosing tree.
+
+Construction histories: every shard of the enumeration starts from a fresh state of the expression layer
+(fresh_state(): expression.py and parser.py re-created from source) and is a history of its own; a violation is
+retried alone in a fresh state and, if it only shows after other constructions, recorded together with the greedily
+shrunk list of earlier specs that reproduces it (case kind "hist", replayed in order).  A dedicated family builds every
+operator whose width is special (comparisons, parity, FLAG_*, *WC flags, zeroExt/signExt/fp conversions, segm) with
+several operand-size combinations, and nodes built on them, forward, in reverse and as ordered pairs per operator.
 """
 import copy
 import itertools
@@ -58,7 +65,8 @@ NAMES_MIX = ["\\é", "日\n", "é\t", "日\x00", "é'\"", "\x85é", "é\\'日\n"
 ID_SIZES = [1, 8, 16, 32, 128]
 PROTOCOLS = [0, 1, 2, 3, 4, 5]
 
-SIZE1_OPS = {"==", "<u", "<s", "<=u", "<=s", "parity", "bcdadd_cf", "FLAG_EQ", "FLAG_EQ_AND", "FLAG_SIGN_SUB", "FLAG_EQ_CMP",
+SIZE1_OPS = {"==", "<u", "<s", "<=u", "<=s", "<", "<=", "pos", "Spos", "parity", "bcdadd_cf", "FLAG_SIGN_ADD", "access_segment_ok",
+             "load_segment_limit_ok", "fcom_c0", "fxam_c1", "ucomiss_zf", "ucomisd_cf", "FLAG_EQ", "FLAG_EQ_AND", "FLAG_SIGN_SUB", "FLAG_EQ_CMP",
              "FLAG_ADD_CF", "FLAG_SUB_CF", "FLAG_ADD_OF", "FLAG_SUB_OF", "FLAG_EQ_ADDWC", "FLAG_ADDWC_OF", "FLAG_SUBWC_OF",
              "FLAG_ADDWC_CF", "FLAG_SUBWC_CF", "FLAG_SIGN_ADDWC", "FLAG_SIGN_SUBWC", "FLAG_EQ_SUBWC"}
 BIN_OPS = ["+", "*", "^", "&", "|", ">>", "<<", "a>>", ">>>", "<<<", "/", "%", "**", "udiv", "smod",
@@ -400,6 +408,201 @@ def check_spec(s, counters=None):
     return vs
 
 
+# ------------------------------------------------------------------ construction histories
+
+FRESH_MODULES = ["miasm.expression.expression", "miasm.expression.parser"]
+_code = {}
+
+
+def fresh_state():
+    """Fresh state of the expression layer: miasm.expression.expression (classes, hash-consing table, every class-level
+    table or memo) and miasm.expression.parser (grammar bound to those classes) are re-created from their source as new
+    module objects, installed in sys.modules / their package; pickle, the parser and mc.exprspec resolve the classes
+    through sys.modules at call time, so everything built afterwards lives in the new generation.  About 10 ms, against a
+    fork whose cost on this host is erratic; a recorded case is confirmed by the runner in a really fresh process."""
+    import importlib
+    import importlib.util
+    import sys
+    for name in FRESH_MODULES:
+        if name not in _code:
+            importlib.import_module(name)
+            spec = sys.modules[name].__spec__
+            _code[name] = (compile(spec.loader.get_source(name), spec.origin, "exec"), spec)
+        code, spec = _code[name]
+        mod = importlib.util.module_from_spec(spec)
+        sys.modules[name] = mod
+        exec(code, mod.__dict__)
+        parent, _, child = name.rpartition(".")
+        setattr(sys.modules[parent], child, mod)
+    _memo.clear()
+
+
+def _apply(h):
+    try:
+        check_spec(h)
+    except Exception:
+        pass
+
+
+def check_history(specs):
+    """From a fresh state, run the checks of specs[:-1] in order (their verdicts are not used), then judge specs[-1].
+    A violation is reported with the history in its case and the skeletons of the history in its signature."""
+    specs = [tup(x) for x in specs]
+    fresh_state()
+    for h in specs[:-1]:
+        _apply(h)
+    vs = check_spec(specs[-1])
+    after = "|after:" + ",".join(sorted(set(skel(h) for h in specs[:-1])))
+    out = []
+    for v in vs:
+        out.append(violation("history:" + v["sig"] + after,
+                             v["what"] + "  [constructed after: %s]" % "; ".join(repr(h) for h in specs[:-1]),
+                             {"k": "hist", "specs": specs}))
+    fresh_state()
+    return out
+
+
+def shrink_history(earlier, s):
+    """Greedy smallest history: sub-list H of the earlier specs, then sub-expressions of its members and of s, such that
+    fresh state + H + s still violates.  Returns H + [s] (None: not reproducible from the earlier specs)."""
+    def fails(H, t=None):
+        fresh_state()
+        for h in H:
+            _apply(h)
+        return bool(check_spec(s if t is None else t))
+    reps = []
+    seen = set()
+    for h in earlier:
+        key = (skel(h), size_of(norm(h)))
+        if key not in seen:
+            seen.add(key)
+            reps.append(h)
+    if fails(reps):
+        H = reps
+    elif len(earlier) > len(reps) and fails(earlier[-400:]):
+        H = list(earlier[-400:])
+    else:
+        return None
+    chunk = max(1, len(H) // 2)
+    while True:
+        i = 0
+        while i < len(H):
+            cand = H[:i] + H[i + chunk:]
+            if fails(cand):
+                H = cand
+            else:
+                i += chunk
+        if chunk == 1:
+            break
+        chunk = max(1, chunk // 2)
+    # narrow both sides to sub-expressions: the smallest judged spec and the smallest earlier constructions that still do it
+    changed = True
+    while changed:
+        changed = False
+        for c in children(s):
+            if fails(H, c):
+                s = c
+                changed = True
+                break
+        for i, h in enumerate(H):
+            for c in children(h):
+                if fails(H[:i] + [c] + H[i + 1:]):
+                    H = H[:i] + [c] + H[i + 1:]
+                    changed = True
+                    break
+    return H + [s]
+
+
+MAX_HISTORY_REPORTS = 3
+
+
+def judge_sequence(specs, counters=None):
+    """check_spec over a sequence that starts from a fresh state.  A violation is first retried alone in a fresh state:
+    if it reproduces it is an ordinary single-expression case; otherwise it depends on what was constructed before and
+    is reported with the (greedily shrunk) history that reproduces it."""
+    fresh_state()
+    earlier = []
+    vs = []
+    reports = dependent = 0
+    for s in specs:
+        r = check_spec(s, counters)
+        if not r:
+            earlier.append(s)
+            continue
+        fresh_state()
+        ra = check_spec(s)
+        if ra:
+            vs += ra
+        else:
+            dependent += 1
+            if reports < MAX_HISTORY_REPORTS:
+                reports += 1
+                H = shrink_history(earlier, s)
+                rh = check_history(H) if H is not None else []
+                vs += rh if rh else r
+        fresh_state()
+        earlier = []
+    fresh_state()
+    return vs, dependent
+
+
+def hist_menu():
+    """(operator, operand sizes) specs for every operator whose width is not simply that of its operands, several
+    operand-size combinations each, plus nodes built on them"""
+    def L(w, n="h"):
+        return ("id", "%s%d" % (n, w), w)
+    out = []
+    for w in (8, 32):
+        for op in ("==", "<u", "<s", "<=u", "<=s", "<", "<=", "FLAG_EQ_CMP", "FLAG_ADD_CF", "FLAG_SUB_OF", "FLAG_SIGN_SUB", "FLAG_EQ_AND",
+                   "FLAG_SIGN_ADD", "bcdadd_cf", "call_func_ret", "+", "*"):
+            out.append(("op", op, L(w), L(w, "g")))
+        for op in ("parity", "FLAG_EQ", "-", "cntleadzeros"):
+            out.append(("op", op, L(w)))
+    for w in (8, 32, 16):
+        for op in ("FLAG_EQ_ADDWC", "FLAG_EQ_SUBWC", "FLAG_SIGN_ADDWC", "FLAG_SIGN_SUBWC", "FLAG_ADDWC_CF", "FLAG_ADDWC_OF",
+                   "FLAG_SUBWC_CF", "FLAG_SUBWC_OF"):
+            out.append(("op", op, L(w), L(w, "g"), L(1)))
+    for op, w in (("zeroExt_16", 8), ("zeroExt_32", 8), ("zeroExt_32", 16), ("signExt_32", 8), ("signExt_32", 16), ("zeroExt_128", 64),
+                  ("fp_to_sint32", 32), ("fp_to_sint32", 64), ("fp_to_sint64", 64), ("fpconvert_fp32", 64), ("fpconvert_fp64", 32)):
+        out.append(("op", op, L(w)))
+    segs = [("op", "segm", L(a, "s"), L(b)) for a, b in ((16, 8), (16, 32), (16, 64), (8, 16), (32, 32))]
+    out += segs
+    out += [("compose", segs[0], L(8)), ("compose", L(8), segs[1]), ("cond", L(1), segs[1], L(32)), ("slice", segs[2], 0, 8),
+            ("mem", segs[1], 8), ("op", "+", segs[3], L(16)), ("assign", L(64), segs[2]),
+            ("compose", ("op", "FLAG_EQ_ADDWC", L(32), L(32, "g"), L(1)), L(8))]
+    return out
+
+
+def hist_sequences(thorough):
+    """forward, reverse, and every ordered pair of specs that share their operator (first-constructed-wins in both orders)"""
+    menu = hist_menu()
+    seqs = [list(menu), list(reversed(menu))]
+    def opname(x):
+        while x[0] != "op":
+            ch = children(x)
+            nxt = [c for c in ch if c[0] == "op"] or [c for c in ch if children(c)]
+            if not nxt:
+                return None
+            x = nxt[0]
+        return x[1]
+    groups = {}
+    for m in menu:
+        groups.setdefault(opname(m), []).append(m)
+    for g in sorted(k for k in groups if k):
+        for a in groups[g]:
+            for b in groups[g]:
+                if a != b:
+                    seqs.append([a, b])
+    if thorough:
+        segs = [m for m in menu if opname(m) == "segm"]
+        for a in segs:
+            for b in segs:
+                for c in segs:
+                    if a != b and b != c:
+                        seqs.append([a, b, c])
+    return seqs
+
+
 def check_pairs(specs):
     """No two different norm(spec) share an object; equal norm(spec) give one object (whole shard)."""
     vs = []
@@ -672,16 +875,29 @@ def _shard(args):
     counters = {"neighbours": 0, "canonize_raised": 0}
     if kind == "pairs":
         # all members of the family (and, for the cross shard, of every cheaper family) in one identity table
+        fresh_state()
         allspecs = []
         for f in fam.split("+"):
             allspecs += family(f, thorough)
         pv, ndist = check_pairs(allspecs)
+        fresh_state()
         return {"n": 0, "nt": 0, "vs": pv[:50], "sample": None, "pairs_table": len(allspecs), "distinct_objects": ndist,
-                "neighbours": 0, "canonize_raised": 0, "kinds": {}}
+                "neighbours": 0, "canonize_raised": 0, "kinds": {}, "dependent": 0, "histories": 0}
+    if kind == "hist":
+        seqs = hist_sequences(thorough)
+        n = dep = 0
+        for i in range(idx, len(seqs), nsh):
+            r, d = judge_sequence(seqs[i], counters)
+            vs += r
+            dep += d
+            n += len(seqs[i])
+        return {"n": n, "nt": n, "vs": vs[:80], "sample": None, "pairs_table": 0, "distinct_objects": 0, "neighbours": counters["neighbours"],
+                "canonize_raised": counters["canonize_raised"], "kinds": {}, "dependent": dep, "histories": len(range(idx, len(seqs), nsh))}
     specs = family(fam, thorough)
     n = nt = 0
     sample = None
     kinds = {}
+    mine = []
     for i in range(idx, len(specs), nsh):
         s = specs[i]
         n += 1
@@ -690,9 +906,11 @@ def _shard(args):
             if sample is None:
                 sample = s
         kinds[s[0]] = kinds.get(s[0], 0) + 1
-        vs += check_spec(s, counters)
+        mine.append(s)
+    vs, dep = judge_sequence(mine, counters)      # the shard is a construction history of its own, started fresh
     return {"n": n, "nt": nt, "vs": vs[:80], "sample": sample, "pairs_table": 0, "distinct_objects": 0,
-            "neighbours": counters["neighbours"], "canonize_raised": counters["canonize_raised"], "kinds": kinds}
+            "neighbours": counters["neighbours"], "canonize_raised": counters["canonize_raised"], "kinds": kinds, "dependent": dep,
+            "histories": 0}
 
 
 def run(ctx):
@@ -706,6 +924,7 @@ def run(ctx):
         k = 4 if fam in ("leaves", "names") else nsh
         shards += [("expr", fam, thorough, i, k) for i in range(k)]
     shards += [("pairs", "ints+leaves+names+d1+d2", thorough, 0, 1)]
+    shards += [("hist", "", thorough, i, 4) for i in range(4)]
     res, how = amap(ctx, _shard, shards)
     for r in res:
         ctx.add_violations(r["vs"])
@@ -727,6 +946,8 @@ def run(ctx):
         "identity_table_specs": sum(r["pairs_table"] for r in res),
         "identity_table_distinct_objects": sum(r["distinct_objects"] for r in res),
         "canonize_raised": sum(r["canonize_raised"] for r in res),
+        "construction_histories": sum(r["histories"] for r in res),
+        "history_dependent_violations": sum(r["dependent"] for r in res),
         "per_node_kind": kinds,
     }
 
@@ -737,4 +958,6 @@ def replay(case):
     if case["k"] == "pair":
         vs, _ = check_pairs([tup(case["a"]), tup(case["b"])])
         return vs
+    if case["k"] == "hist":
+        return check_history(case["specs"])
     return []
